@@ -3,6 +3,7 @@ package rules
 import (
 	"bytes"
 	"fmt"
+	"os"
 	"path/filepath"
 	"strings"
 	"testing"
@@ -46,7 +47,13 @@ func genC07(rt *rapid.T) rulegen.Spec {
 		if rapid.IntRange(0, 2).Draw(rt, "oddname") == 0 {
 			// any file name is a file name: glob characters, shell characters, a leading dash (such a path does not
 			// exist, so it is a non-directory)
-			return rulegen.GenWatchShaped(rt, o, "path", filepath.Join(scratchDir, rulegen.StrictName(rt, "oddname")))
+			p := filepath.Join(scratchDir, rulegen.StrictName(rt, "oddname"))
+			if st, err := os.Stat(p); err == nil && st.IsDir() {
+				// "." and "..", the names of the scratch sub-directory and of the links to directories are file names
+				// too, but they name directories: outside the domain of path= in a watch-shaped rule (see below)
+				p = filepath.Join(scratchDir, "missing")
+			}
+			return rulegen.GenWatchShaped(rt, o, "path", p)
 		}
 		return rulegen.GenWatchShaped(rt, o, "path", rapid.SampledFrom([]string{filepath.Join(scratchDir, "link-to-file"), scratchFile,
 			filepath.Join(scratchDir, "link-to-nothing"), filepath.Join(scratchDir, "missing")}).Draw(rt, "nondir"))
